@@ -153,7 +153,7 @@ def step : List String → String
     match payloadTok ws with
     | none => "bad-op"
     | some (uris, cfg) =>
-      if !WellFormedCfg cfg uris then "wf=F"
+      if !WellFormedCfg cfg then "wf=F"
       else
         match fromBeaconConfig cfg uris with
         | .error _ => "wf=T total=F valid=F faithful=F"
